@@ -307,6 +307,8 @@ def check(chk):
            path=cfg.fmt_path(w, "mpf/modes/tilt/code/tilt.py") if w else None, construct=f.ident, text="tilt ends ball")
     ok = any("'tilt'" in src(c) for c in f.calls() if call_attr(c) == "post")
     chk.ob("DOM-20", "a tilt posts the tilt event", ok, f.where(), construct=f.ident, text="tilt event")
+    from sa.helpers import game_ended_only_through_its_api
+    game_ended_only_through_its_api(chk, "DOM-20")
     # a tilt is ignored while the game says it is already tilted: that flag must not survive a game (the game mode object is reused);
     # every flag of the game that makes tilt() return early is reset at game start, before anything is awaited
     early = set()
@@ -384,6 +386,7 @@ def battery():
         M("twin: extra disable event", Y, "    disable_events: event_handler|event_handler:ms|ball_will_end, service_mode_entered", "    disable_events: event_handler|event_handler:ms|ball_will_end, service_mode_entered, tilt", None, nth=0),
         M("tilted flag survives the game", "mpf/modes/game/code/game.py", "        self.tilted = False\n        self.ending = False\n        self.num_players = 0", "        self.ending = False\n        self.num_players = 0", "DOM-20"),
         M("tilt during ball start is wiped", "mpf/modes/game/code/game.py", "        self._end_ball_event.clear()\n        await self._start_ball(is_extra_ball)", "        await self._start_ball(is_extra_ball)\n        self._end_ball_event.clear()", "DOM-20"),
+        M("ball search gives up by stopping the game mode directly", "mpf/core/ball_search.py", "                self.info_log(\"Ending the game\")\n                self.machine.game.end_game()", "                self.info_log(\"Ending the game\")\n                self.machine.game.stop()", "DOM-20"),
     ]
 
 
